@@ -188,6 +188,22 @@ def of_unsigned_through_param(text):
     return False
 
 
+def objset_shared_by_two_specializations(text):
+    """one parameterized type with an object-set (governed, upper-case) parameter instantiated with the same object set in two
+    different actual parameter lists"""
+    t = strip_comments(text)
+    for name, params in re.findall(r"(?m)^\s*([A-Z][\w-]*)\s*\{([^{}]*)\}\s*::=", t):
+        if not re.search(r"[A-Z][\w-]*\s*:\s*[A-Z]", params):
+            continue
+        lists = set(re.findall(r"\b%s\s*\{((?:[^{}]|\{[^{}]*\})*)\}(?!\s*::=)" % re.escape(name), t))
+        sets = [(re.findall(r"\{\s*([A-Z][\w-]*)\s*\}", l), l) for l in lists]
+        for i, (a, la) in enumerate(sets):
+            for b, lb in sets[i + 1:]:
+                if la != lb and set(a) & set(b):
+                    return True
+    return False
+
+
 def real_reference_with_range(text):
     """a reference to a type whose chain ends in REAL, used with a value constraint (not WITH COMPONENTS)"""
     t = strip_comments(text)
@@ -227,6 +243,8 @@ def match_finding(stage, job):
         if re.search(r"unknown type name .\w+_\d+P\d+_t|asn_DEF_\w+_\d+P\d+. undeclared|\w+_\d+P\d+. has not been declared|does not name a type", blog):
             if param_type_in_two_modules(text):
                 return "C10-param-type-in-two-modules"
+        if re.search(r"redefinition of .asn_(VAL|IOS)_", blog) and objset_shared_by_two_specializations(text):
+            return "C10-param-objset-table-per-specialization"
         if re.search(r"#error Cannot compile", blog) and re.search(r"\bINSTANCE\s+OF\b", strip_comments(text)):
             return "C10-instance-of-member-error-directive"
         if re.search(r"\b[\w-]+\.h: No such file", blog) and valueset_used_as_type(text):
@@ -239,6 +257,9 @@ def match_finding(stage, job):
     if stage == "fatal":
         fat = " ".join(job.get("fatal_lines", []) + job.get("error_directives", []))
         t = strip_comments(text)
+        if all(re.match(r"FATAL: Inappropriate value \{", l) for l in job.get("fatal_lines", [])) and not job.get("error_directives") \
+           and re.search(r"&[a-z][\w-]*\s+(OBJECT\s+IDENTIFIER|RELATIVE-OID)", t):
+            return "C18-oid-identifier"
         if re.search(r"Cannot compile", fat) and re.search(r"\bINSTANCE\s+OF\b", t):
             return "C10-instance-of-member-error-directive"
         if re.search(r"Cannot compile", fat) and re.search(r"[a-z][\w-]*\s+(?:\[[^\]]*\]\s*)?(EXTERNAL|EMBEDDED\s+PDV)\b", t):
@@ -427,6 +448,7 @@ def main(tier):
     fpath = os.path.join(VERIF, "findings.d", "C10.json")
     run.findings = [f for f in (json.load(open(fpath)) if os.path.exists(fpath) else []) if f.get("status") == "open"]
     run.findings += [f for f in load_findings("C11") if f["id"] == "C11-leftrec-crash"]
+    run.findings += [f for f in load_findings("C18") if f["id"] == "C18-oid-identifier" and f.get("status") == "open"]
     known_ids = {f["id"] for f in run.findings}
     rng = Rng(run.seed)
     scr = scratch()
@@ -442,6 +464,8 @@ def main(tier):
         run.violation("build:asn1c", {"what": str(e)[-2500:]}, no_input=True)
         return run.finish("translation_validation", (nthm, ndis))
     mods = corpus(rng, tier)
+    if os.environ.get("C10_ONLY"):          # development aid: C10_ONLY=partial,strlit runs the modules of these origins only
+        mods = [m_ for m_ in mods if m_["origin"].split(":")[0] in os.environ["C10_ONLY"].split(",")]
     # quick: the 4 option sets of round 1 + "-fwide-types" alone (wide types WITH constraint code), which only the numeric
     # kinds of the reference sweep get: set 2 carries -fno-constraints, so the checker emitted for a constrained INTEGER / REAL
     # reference under wide types was built in the thorough tier only (finding C10-real-reference-constraint-value-type)
